@@ -210,6 +210,20 @@ func checkMaxRestartsOpt(w *World, r *Report, rule string) {
 			if fa, ok := s.Addr.(*ssa.FieldAddr); ok {
 				if name, _ := fieldName(fa); name == "MaxRestarts" && w.pathOf(s.Val) == "conv<int32>(FV:n)" {
 					st[i] = true
+				} else if name == "MaxRestarts" {
+					// the conversion hoisted out of the closure: a captured variable that holds int32(n), assigned once
+					if cell := capturedCell(cf, s.Val); cell != nil && storesTo(cell) == 1 && cell.Referrers() != nil {
+						for _, ref := range *cell.Referrers() {
+							if cs, isS := ref.(*ssa.Store); isS && cs.Addr == cell {
+								restore := w.noCtx()
+								w.FG(fn)
+								if w.pathOf(cs.Val) == "conv<int32>(P0)" {
+									st[i] = true
+								}
+								restore()
+							}
+						}
+					}
 				}
 			}
 		}
